@@ -30,6 +30,9 @@ enum Op {
     Write(usize),
     /// read len/is_empty/capacity/as_ptr/Debug through the accessors
     Inspect,
+    /// clone() while the k-th element's Clone panics (element types that support it): like Vec, the partial clone is
+    /// cleaned up (every element cloned so far dropped once), the source is untouched
+    ClonePanic(usize),
 }
 
 trait Elem: 'static + Sized {
@@ -40,6 +43,10 @@ trait Elem: 'static + Sized {
     fn id(&self) -> Option<usize> {
         None
     }
+    /// does this element type have a Clone that can be armed to panic?
+    const PANICKY: bool = false;
+    /// arm: the (k+1)-th Clone::clone from now on panics; disarm with None
+    fn arm_clone_panic(_k: Option<usize>) {}
     /// value of a clone of an element whose value is `v` (identity unless Clone is not a bitwise copy)
     fn cloned_val(v: u64) -> u64 {
         v
@@ -117,6 +124,43 @@ impl Elem for Gen {
     }
     fn cloned_val(v: u64) -> u64 {
         v + 1_000_000
+    }
+}
+thread_local! {
+    static PANIC_IN: Cell<Option<usize>> = const { Cell::new(None) };
+}
+/// drop-counted element whose Clone can be armed to panic after k successful clones
+struct Pc(Dc);
+impl Clone for Pc {
+    fn clone(&self) -> Self {
+        let left = PANIC_IN.with(|c| c.get());
+        if let Some(k) = left {
+            if k == 0 {
+                PANIC_IN.with(|c| c.set(None));
+                panic!("armed Clone::clone");
+            }
+            PANIC_IN.with(|c| c.set(Some(k - 1)));
+        }
+        Pc(self.0.clone())
+    }
+}
+impl Elem for Pc {
+    const NAME: &'static str = "panicking_clone";
+    const PANICKY: bool = true;
+    fn arm_clone_panic(k: Option<usize>) {
+        PANIC_IN.with(|c| c.set(k));
+    }
+    fn make(v: u64) -> Self {
+        Pc(Dc::new(v))
+    }
+    fn val(&self) -> u64 {
+        self.0.val
+    }
+    fn dup(&self) -> Self {
+        Pc(self.0.clone())
+    }
+    fn id(&self) -> Option<usize> {
+        Some(self.0.id)
     }
 }
 /// zero-sized element: all values are equal, only counts matter
@@ -260,6 +304,11 @@ impl<E: Elem + Clone> Sut<E> {
                     v.push(Op::Reserve(k));
                 }
                 v.push(Op::CloneSwap);
+                if E::PANICKY {
+                    for k in 0..len {
+                        v.push(Op::ClonePanic(k));
+                    }
+                }
                 for i in 0..len {
                     v.push(Op::Write(i));
                 }
@@ -412,6 +461,30 @@ impl<E: Elem + Clone> Sut<E> {
                     c[i] = E::make(x);
                     model.as_mut().unwrap()[i] = E::make(x).val();
                 }
+                Op::ClonePanic(k) => {
+                    let c = cv.as_ref().unwrap();
+                    let first_new = drops.ids();
+                    E::arm_clone_panic(Some(k));
+                    let r = std::panic::catch_unwind(std::panic::AssertUnwindSafe(|| c.clone()));
+                    E::arm_clone_panic(None);
+                    match r {
+                        Ok(cl) => {
+                            std::mem::forget(cl);
+                            bail2("harness", at("the armed Clone did not panic"))?;
+                        }
+                        Err(_) => {}
+                    }
+                    // what the interrupted clone() created is gone again, each value exactly once (Vec::clone behaves so)
+                    let counts = drops.counts();
+                    for id in first_new..drops.ids() {
+                        if counts[id] != 1 {
+                            bail2("vec:clone_panic_cleanup", at(&format!("clone() interrupted by a panic in the {}-th element's Clone: element created as id {} was dropped {} time(s) (the {} clone(s) made before the panic must be dropped exactly once)", k, id, counts[id], k)))?;
+                        }
+                    }
+                    if drops.ids() - first_new != k {
+                        bail2("vec:clone_panic_cleanup", at(&format!("clone() interrupted at element {} created {} values", k, drops.ids() - first_new)))?;
+                    }
+                }
                 Op::Inspect => {
                     let c = cv.as_mut().unwrap();
                     let m = model.as_ref().unwrap();
@@ -555,7 +628,7 @@ fn section_with<E: Elem + Clone>(name: &'static str, class: usize) -> Section {
 fn main() {
     quiet_panics();
     let mut sections = vec![section::<u64>("u64"), section::<u8>("u8"), section::<Z>("zst"), section::<Dc>("dropcounter"), section::<DcZst>("zst_drop"), section::<Fat>("fat_heap"),
-        section::<Gen>("clone_generation"), section_with::<u64>("u64_inplace", CLASS), section_with::<Dc>("dropcounter_inplace", CLASS), section_with::<Fat>("fat_heap_inplace", CLASS)];
+        section::<Gen>("clone_generation"), section::<Pc>("panicking_clone"), section_with::<u64>("u64_inplace", CLASS), section_with::<Dc>("dropcounter_inplace", CLASS), section_with::<Fat>("fat_heap_inplace", CLASS)];
     // the *_bfs sections replay through the same function
     let extra: Vec<Section> = vec![
         Section { name: "u64_bfs", explore: Box::new(|_| {}), replay: Box::new(|c| replay_with::<u64>(c, 6, 0)) },
@@ -564,6 +637,7 @@ fn main() {
         Section { name: "dropcounter_bfs", explore: Box::new(|_| {}), replay: Box::new(|c| replay_with::<Dc>(c, 6, 0)) },
         Section { name: "zst_drop_bfs", explore: Box::new(|_| {}), replay: Box::new(|c| replay_with::<DcZst>(c, 6, 0)) },
         Section { name: "fat_heap_bfs", explore: Box::new(|_| {}), replay: Box::new(|c| replay_with::<Fat>(c, 6, 0)) },
+        Section { name: "panicking_clone_bfs", explore: Box::new(|_| {}), replay: Box::new(|c| replay_with::<Pc>(c, 6, 0)) },
         Section { name: "clone_generation_bfs", explore: Box::new(|_| {}), replay: Box::new(|c| replay_with::<Gen>(c, 6, 0)) },
         Section { name: "u64_inplace_bfs", explore: Box::new(|_| {}), replay: Box::new(|c| replay_with::<u64>(c, 6, CLASS)) },
         Section { name: "dropcounter_inplace_bfs", explore: Box::new(|_| {}), replay: Box::new(|c| replay_with::<Dc>(c, 6, CLASS)) },
